@@ -31,6 +31,7 @@ type scen struct {
 	Writers  int      `json:"writers"`
 	Packets  int      `json:"packets_per_writer"`
 	Close    bool     `json:"close"`
+	Fill     bool     `json:"exact_fill,omitempty"` // writer 0's first packet is 2046 bytes: with its 2-byte header it fills the initial 2048-byte ring exactly
 	Short    int      `json:"short_readers,omitempty"` // bit r set: reader r reads with a 1-byte slice (every read is a short read)
 	Deadline string   `json:"deadline,omitempty"` // "", past, far, zero, past-then-zero
 	Strategy string   `json:"strategy"`
@@ -145,7 +146,7 @@ func runOne(sc *scen, st sched.Strategy, settle bool, hit map[int]bool) result {
 		wg.Add(1)
 		s.Go(fmt.Sprintf("R%d", r), func() {
 			defer wg.Done()
-			buf := make([]byte, 16)
+			buf := make([]byte, 4096)
 			if sc.Short>>uint(r)&1 == 1 {
 				buf = buf[:1]
 			}
@@ -155,7 +156,7 @@ func runOne(sc *scen, st sched.Strategy, settle bool, hit map[int]bool) result {
 				t1 := tick()
 				o := cout{}
 				switch {
-				case err == nil && n == 2:
+				case err == nil && (n == 2 || n == 2046):
 					o.ID = int(buf[0])
 				case errors.Is(err, io.ErrShortBuffer) && n == 1 && len(buf) == 1:
 					// a short read consumes its packet like any other read
@@ -183,7 +184,12 @@ func runOne(sc *scen, st sched.Strategy, settle bool, hit map[int]bool) result {
 			for k := 0; k < sc.Packets; k++ {
 				id := 1 + w*sc.Packets + k
 				t0 := tick()
-				_, err := b.Write([]byte{byte(id), 0xAB})
+				pl := []byte{byte(id), 0xAB}
+				if sc.Fill && w == 0 && k == 0 {
+					pl = make([]byte, 2046)
+					pl[0], pl[1] = byte(id), 0xAB
+				}
+				_, err := b.Write(pl)
 				t1 := tick()
 				o := cout{}
 				if err != nil {
@@ -363,6 +369,9 @@ func genScen(rng *rand.Rand) *scen {
 	if rng.Intn(3) == 0 {
 		sc.Short = 1 + rng.Intn(1<<uint(sc.Readers)-1)
 	}
+	if rng.Intn(6) == 0 {
+		sc.Fill = true
+	}
 	switch rng.Intn(12) {
 	case 10:
 		sc.Deadline = "zero-past"
@@ -423,7 +432,7 @@ func main() {
 			n++
 		}
 	}
-	r.Rule = "scenarios of 1-3 readers x 1-2 reads (some readers with a 1-byte slice, so that every read of theirs is a short read), 1-2 writers x 1-3 packets, optional Close task, optional SetReadDeadline(past|far|zero|past-then-zero|past-past|far-past-past|zero-past|far-zero-past) task, executed on the real packetio.Buffer under a cooperative scheduler with yield points before every lock/channel/select operation of buffer.go and deadline.go; strategies PCT d=2..4, uniform random, DFS with preemption bound 2 on the smallest scenarios; oracle at quiescent points (parked reader while Count()>0 / after Close / with passed deadline) + linearizability of the completed operations; distinct = distinct schedules (task@point sequences)"
+	r.Rule = "scenarios of 1-3 readers x 1-2 reads (some readers with a 1-byte slice, so that every read of theirs is a short read), 1-2 writers x 1-3 packets (in a sixth of the scenarios the first packet fills the initial ring exactly), optional Close task, optional SetReadDeadline(past|far|zero|past-then-zero|past-past|far-past-past|zero-past|far-zero-past) task, executed on the real packetio.Buffer under a cooperative scheduler with yield points before every lock/channel/select operation of buffer.go and deadline.go; strategies PCT d=2..4, uniform random, DFS with preemption bound 2 on the smallest scenarios; oracle at quiescent points (parked reader while Count()>0 / after Close / with passed deadline) + linearizability of the completed operations; distinct = distinct schedules (task@point sequences)"
 	r.Assumptions = []string{"interleavings inside the Go runtime (direct hand-off to a parked receiver) are below the yield granularity", "blocked is decided from runtime.Stack goroutine states (select, chan receive, sync.Mutex.Lock, ...), sampled three times", "a task released from a real blocking operation runs freely up to its next yield point"}
 	var total int
 	if *pts != "" {
@@ -514,6 +523,7 @@ func main() {
 		{Readers: 2, Reads: 2, Writers: 1, Packets: 2, Short: 1},
 		{Readers: 1, Reads: 1, Writers: 1, Packets: 1, Deadline: "past-past"},
 		{Readers: 2, Reads: 1, Writers: 1, Packets: 1, Deadline: "zero-past"},
+		{Readers: 1, Reads: 2, Writers: 1, Packets: 2, Fill: true},
 	}
 	dsc := shapes[*shard%len(shapes)]
 	dsc.Strategy = "dfs"
